@@ -732,6 +732,67 @@ struct LargeSys {
     }
 };
 
+// The result of every inserter / append is the stream itself: a chain acts on one stream, in order.
+struct ChainSys {
+    uint64_t n_checks = 0;
+    const char *name() const { return "identity of << / append / append_char results, chains"; }
+    size_t op_count() const { return 0; }
+    bool enabled(size_t) const { return false; }
+    std::string op_name(size_t) const { return ""; }
+    void reset() {}
+    void apply(size_t, bool, hx::Fails &) {}
+    std::string key() const { return "chain"; }
+    bool nontrivial() const { return true; }
+    void on_new_state(hx::Fails &f)
+    {
+        for (size_t pre : {size_t(0), size_t(250), size_t(600)}) {
+            vf::Outcome oc = vf::guard([&] {
+                std::string want(pre, 'p');
+                ST::string_stream ss;
+                ss.append_char('p', pre);
+                auto same = [&](const char *what, const void *r) {
+                    ++n_checks;
+                    if (r != (const void *)&ss) f.push_back(hx::Fail{vf::strf("c16:chain:%s:result-is-not-the-stream", what), vf::strf("the result of %s does not denote the stream", what)});
+                };
+                { auto &&r = (ss << "a"); same("<< const char*", &r); }
+                { auto &&r = (ss << L"b"); same("<< const wchar_t*", &r); }
+                { auto &&r = (ss << u"c"); same("<< const char16_t*", &r); }
+                { auto &&r = (ss << U"d"); same("<< const char32_t*", &r); }
+                { auto &&r = (ss << 'e'); same("<< char", &r); }
+                { auto &&r = (ss << 12); same("<< int", &r); }
+                { auto &&r = (ss << -34LL); same("<< long long", &r); }
+                { auto &&r = (ss << 56u); same("<< unsigned", &r); }
+                { auto &&r = (ss << 1.5); same("<< double", &r); }
+                { auto &&r = (ss << 2.5f); same("<< float", &r); }
+                { auto &&r = (ss << ST_LITERAL("st")); same("<< ST::string", &r); }
+                { auto &&r = (ss << std::string("std")); same("<< std::string", &r); }
+                { auto &&r = (ss << std::string_view("sv")); same("<< std::string_view", &r); }
+                { auto &&r = ss.append("xy", 2); same("append(ptr,n)", &r); }
+                { auto &&r = ss.append("z"); same("append(cstr)", &r); }
+                { auto &&r = ss.append_char('-', 3); same("append_char", &r); }
+                want += "abcde12-34561.52.5ststdsvxyz---";
+                ++n_checks;
+                if (std::string(ss.raw_buffer(), ss.size()) != want)
+                    f.push_back(hx::Fail{"c16:chain:content", vf::strf("stream holds %s", vf::vis(std::string(ss.raw_buffer(), ss.size())).c_str())});
+                ST::string_stream t;
+                (t << "A" << 1 << 'b').append("C", 1).append_char('d', 2) << 2.5 << ST_LITERAL("E");
+                ++n_checks;
+                if (std::string(t.raw_buffer(), t.size()) != "A1bCdd2.5E")
+                    f.push_back(hx::Fail{"c16:chain:one-expression", vf::strf("(t << \"A\" << 1 << 'b').append(\"C\",1).append_char('d',2) << 2.5 << \"E\" gives %s", vf::vis(std::string(t.raw_buffer(), t.size())).c_str())});
+                ST::string_stream u;
+                auto &&r = (u = std::move(t));
+                ++n_checks;
+                if ((const void *)&r != (const void *)&u || std::string(u.raw_buffer(), u.size()) != "A1bCdd2.5E")
+                    f.push_back(hx::Fail{"c16:chain:move-assign:result-is-not-the-target", "(u = std::move(t)) does not denote u or u lacks t's content"});
+            });
+            if (!oc.ok()) f.push_back(hx::Fail{vf::strf("c16:chain:%s", vf::outkind_name(oc.kind)), oc.str()});
+        }
+        hx::note_phase("reads");
+    }
+    void samples(std::vector<std::string> &out) const { out.push_back(vf::strf("chains: %llu checks", (unsigned long long)n_checks)); }
+    void counters(std::map<std::string, uint64_t> &c) const { c["chain-checks"] += n_checks; }
+};
+
 static void build(std::vector<hx::Job> &jobs, const vf::Opts &o, std::string &rule, std::vector<std::string> &assumptions)
 {
     G.resize(16384);
@@ -764,6 +825,9 @@ static void build(std::vector<hx::Job> &jobs, const vf::Opts &o, std::string &ru
         l1.max_depth = 0;
         l1.hang_s = 120;
         jobs.push_back(hx::make_job<LargeSys>([]() { return new LargeSys(); }, l1));
+        hx::Limits l2;
+        l2.max_depth = 0;
+        jobs.push_back(hx::make_job<ChainSys>([]() { return new ChainSys(); }, l2));
     }
 }
 
